@@ -169,8 +169,45 @@ static void check_transition(const ClassAdapter<T>& A, PoolState<T>& P, const PO
   }
 }
 
+// ---- replay (bin/vcheck replay): VERIF_REPLAY_TXT holds K class= and H <pool history entries>
+static std::map<std::string, std::string> RK; static std::vector<std::string> RH; static bool REPLAY = false; static int REPLAY_RC = 2;
+static void load_replay() {
+  const char* f = getenv("VERIF_REPLAY_TXT"); if (!f) return;
+  std::ifstream in(f); std::string line;
+  while (std::getline(in, line)) {
+    if (line.size() < 3) continue;
+    if (line[0] == 'K') { size_t e = line.find('='); RK[line.substr(2, e - 2)] = line.substr(e + 1); }
+    else if (line[0] == 'H') RH.push_back(line.substr(2));
+  }
+}
+template <class T>
+static void replay_class(const ClassAdapter<T>& A, const int init[3]) {
+  if (RK["class"] != A.name || RH.empty()) return;
+  std::vector<POp> ops = all_ops(A);
+  PoolState<T> P; pinit(A, P, init);
+  printf("class %s\npool: %s\n", A.name.c_str(), RH[0].c_str());
+  bool bad = false;
+  for (size_t i = 1; i < RH.size(); ++i) {
+    int found = -1;
+    for (size_t oi = 0; oi < ops.size(); ++oi) if (op_text(A, ops[oi]) == RH[i]) { found = (int)oi; break; }
+    if (found < 0) { fprintf(stderr, "replay: unknown pool operation '%s'\n", RH[i].c_str()); return; }
+    Recipe<T> ra, rb;
+    std::string ret = papply(A, P, ops[found], &ra, &rb);
+    printf("step %zu: %s  -> returned '%s'\n", i, RH[i].c_str(), ret.substr(0, 200).c_str());
+    for (int k = 0; k < 3; ++k) {
+      std::unique_ptr<T> sh(rbuild(A, P.rec[k]));
+      bool eq = false; try { eq = A.equal(*P.slot[k], *sh); } catch (...) {}
+      bool okk = false; try { okk = A.ok(*P.slot[k]); } catch (...) {}
+      printf("   slot %d: %s | rebuilt from its recipe: %s | %s OK()=%d\n", k, A.print(*P.slot[k]).substr(0, 160).c_str(), A.print(*sh).substr(0, 160).c_str(), eq ? "equal" : "DIFFERENT", (int)okk);
+      if (i + 1 == RH.size() && (!eq || !okk)) bad = true;
+    }
+  }
+  REPLAY_RC = bad ? 1 : 0;
+}
+
 template <class T>
 static void run_class(const ClassAdapter<T>& A, int depth, const int init[3]) {
+  if (REPLAY) { replay_class(A, init); return; }
   double t0 = now_s();
   std::vector<POp> ops = all_ops(A);
   // ---- BFS over pool histories to depth-1 in a restartable child
@@ -294,6 +331,7 @@ int main(int argc, char** argv) {
   int depth = atoi(ARGS.opt("--depth", ARGS.thorough() ? "3" : "2").c_str());
   double t0 = now_s();
   limit_memory(8ULL << 30);
+  if (!ARGS.replay.empty()) { REPLAY = true; load_replay(); }
   const int i123[3] = {1, 2, 0};     // triangle, strip, universe
   const int deeper = ARGS.thorough() ? 1 : 0;   // cheap classes go one level deeper in the thorough tier
 #if VF_GROUP == 1
@@ -322,6 +360,7 @@ int main(int argc, char** argv) {
 #else
 #error "VF_GROUP not set"
 #endif
+  if (REPLAY) return REPLAY_RC;
   J extra; extra.arr("classes", PER_CLASS).num("depth", depth).num("oracle_comparisons", counter(CNT_CHECKS)).num("plain_operation_crashes_skipped", counter(CNT_USER)).num("states_already_inconsistent_skipped", counter(CNT_USER + 1));
   J st; st.str("t", "stats").num("states", TOTAL_STATES).num("transitions", TOTAL_TRANS).num("traces_validated_against_impl", TOTAL_TRANS)
     .boolean("exhaustive", ALL_COMPLETE).str("bound", "pool of 3 objects, pool histories of depth " + std::to_string(depth) + " (states to depth-1 deduplicated on the three dumps, every pool operation applied in every state)")
